@@ -190,6 +190,19 @@ def check_lth(run, pkg, weighted):
         run.ob("R-ALIGN", fq, "weighted:alignment", okal, "bond k of particle i is weighted with column k + 1 of row i of the weight table (same slice 1..cn_i as the neighbours)", show(w)[:100],
                witness=None if okal else "weights shifted by one bond / count column used as a weight / weights of another particle", loc=loc, sound=True)
         okw = okden and okal
+    elif wfac is not None and wfac[0] == "sub" and wfac[1][0] == "bin" and wfac[1][1] == "/":
+        # table-level normalisation (every row of the weight table divided at once), then the slice of particle i
+        A, Dn = wfac[1][2], wfac[1][3]
+        while Dn[0] == "sub" and any(x == ("mod", "numpy.newaxis") or x == NONE for x in walk(Dn[2])):
+            Dn = Dn[1]
+        absA = [("call", f, (A,), ()) for f in ("numpy.abs", "numpy.absolute", "builtins.abs")]
+        def rowsum(x):
+            return [("call", ".sum", (x,), (("axis", C(1)),)), ("call", "numpy.sum", (x,), (("axis", C(1)),)), ("call", ".sum", (x, C(1)), ()), ("call", ".sum", (x,), (("axis", C(-1)),)),
+                    ("call", ".sum", (x,), (("axis", C(1)), ("keepdims", C(True)))), ("call", "numpy.sum", (x,), (("axis", C(1)), ("keepdims", C(True))))]
+        okden = True if any(Dn in rowsum(a) for a in absA) else (False if Dn in rowsum(A) else None)
+        # zero padding does not contribute to either sum, so the row sum over all columns is the sum over the cn_i bonds
+        run.ob("R-ALG", fq, "weighted:normalised", okden, "weights are divided by the sum of their absolute values (|psi| <= 1 also with negative weights)", show(Dn)[:80],
+               witness=None if okden else "row sum without absolute values: weights (2, -1) are scaled by 1 instead of 1/3 - |psi| exceeds 1, and weights (1, -1) divide by zero", loc=loc, sound=True)
     else:
         run.ob("R-ALG", fq, "weighted:normalised", None, "weights are divided by the sum of their absolute values", detail, loc=loc)
     okW = True if Wt is not None else None
